@@ -28,10 +28,12 @@ package safehtmlutil
 
 //@ func QueryEscapeURL(args ...interface{}) (r string)
 //@   serves C13 C14
+//@   ensures qimage: inlang(QImg, r)
 //@   ensures single: len(args) == 1 && tag(at(args, 0)) == 1 ==> seqeq(r, encupto(false, contents(at(args, 0)), len(contents(at(args, 0)))))
 
 //@ func NormalizeURL(args ...interface{}) (r string)
 //@   serves C14
+//@   ensures nimage: inlang(NImg, r)
 //@   ensures single: len(args) == 1 && tag(at(args, 0)) == 1 ==> seqeq(r, encupto(true, contents(at(args, 0)), len(contents(at(args, 0)))))
 
 //@ func IsSafeTrustedResourceURLPrefix(prefix string) (r bool)
